@@ -1549,3 +1549,73 @@ B("C15-version-table", "C15", "C15:R-C15.2", "src/version.rs",
             FormatVersion::V3 => 3,""",
   """            FormatVersion::V2 => 3,
             FormatVersion::V3 => 2,""")
+
+# ======================================================================== C16
+OPTS = "src/keyspace/options.rs"
+B("C16-pinning-into-partitioning", "C16", "C16:R-C16.1:keyspace::options::CreateOptions::from_kvs:key-filter_block_pinning_policy", OPTS,
+  """        let filter_block_partitioning_policy = meta_keyspace
+            .get_kv_for_config(keyspace_id, "filter_block_partitioning_policy")?""",
+  """        let filter_block_partitioning_policy = meta_keyspace
+            .get_kv_for_config(keyspace_id, "filter_block_pinning_policy")?""")
+B("C16-memtable-size-u32", "C16", "C16:R-C16.2:keyspace::options::CreateOptions::from_kvs:width-max_memtable_size", OPTS,
+  "let max_memtable_size = (&mut &max_memtable_size[..]).read_u64::<byteorder::LE>()?;", "let max_memtable_size = u64::from((&mut &max_memtable_size[..]).read_u32::<byteorder::LE>()?);")
+B("C16-key-typo-on-write", "C16", "C16:R-C16.1:keyspace::options::CreateOptions::from_kvs:key-index_block_pinning_policy-is-written", OPTS,
+  """            policy!(
+                keyspace_id,
+                "index_block_pinning_policy",
+                self.index_block_pinning_policy
+            ),""",
+  """            policy!(
+                keyspace_id,
+                "index_block_pining_policy",
+                self.index_block_pinning_policy
+            ),""")
+B("C16-write-wrong-field", "C16", "C16:R-C16.1:keyspace::options::CreateOptions::encode_kvs:key-index_block_compression_policy", OPTS,
+  """            policy!(
+                keyspace_id,
+                "index_block_compression_policy",
+                self.index_block_compression_policy
+            ),""",
+  """            policy!(
+                keyspace_id,
+                "index_block_compression_policy",
+                self.data_block_compression_policy
+            ),""")
+B("C16-blob-threshold-swapped", "C16", "C16:R-C16.1:keyspace::options::CreateOptions::encode_kvs:key-blob_staleness_threshold", OPTS,
+  "(key, blob_opts.staleness_threshold.to_le_bytes().into())", "(key, blob_opts.age_cutoff.to_le_bytes().into())")
+B("C16-options-applied-to-existing", "C16", "C16:R-C16.4:db::Database::keyspace:options-closure-only-for-new-keyspace", DB,
+  """        let keyspaces = self.supervisor.keyspaces.write().expect("lock is poisoned");
+
+        Ok(if let Some(keyspace) = keyspaces.get(name) {
+            keyspace.clone()
+        } else {
+            let name: KeyspaceKey = name.into();
+
+            let keyspace_id = self.keyspace_id_counter.next();
+
+            let mut opts = create_options();
+""",
+  """        let keyspaces = self.supervisor.keyspaces.write().expect("lock is poisoned");
+        let mut opts = create_options();
+
+        Ok(if let Some(keyspace) = keyspaces.get(name) {
+            keyspace.clone()
+        } else {
+            let name: KeyspaceKey = name.into();
+
+            let keyspace_id = self.keyspace_id_counter.next();
+""")
+B("C16-setter-dropped", "C16", "C16:R-C16.6:keyspace::apply_to_base_config:option-filter_policy", KS,
+  "        .filter_policy(our_config.filter_policy.clone())\n", "")
+B("C16-setter-crossed", "C16", "C16:R-C16.6:keyspace::apply_to_base_config", KS,
+  "        .filter_block_pinning_policy(our_config.filter_block_pinning_policy.clone())\n        .index_block_pinning_policy(our_config.index_block_pinning_policy.clone())",
+  "        .filter_block_pinning_policy(our_config.index_block_pinning_policy.clone())\n        .index_block_pinning_policy(our_config.filter_block_pinning_policy.clone())")
+B("C16-recover-applies-default", "C16", "C16:R-C16.5:recovery::recover_keyspaces", REC,
+  "        let base_config = apply_to_base_config(base_config, &recovered_config);", "        let base_config = apply_to_base_config(base_config, &KeyspaceCreateOptions::default());")
+B("C16-hash-ratio-codec-width", "C16", "C16:R-C16.3", "src/keyspace/config/hash_ratio.rs",
+  "v.push(bytes.read_f32::<LittleEndian>()?);", "v.push(bytes.read_f32::<byteorder::BigEndian>()?);")
+B("C16-filter-tag-swapped", "C16", "C16:R-C16.3:keyspace::config::filter", "src/keyspace/config/filter.rs",
+  """                        crate::config::BloomConstructionPolicy::BitsPerKey(bits) => {
+                            v.write_u8(0).expect("cannot fail writing into a vec");""",
+  """                        crate::config::BloomConstructionPolicy::BitsPerKey(bits) => {
+                            v.write_u8(2).expect("cannot fail writing into a vec");""")
